@@ -358,7 +358,8 @@ def read_headers(sock: socket.socket) -> tuple:
     while True:
         line = recv_line(sock)
         try:
-            line = line.decode("utf-8").strip()
+            # only the white space HTTP knows is trimmed (not U+00A0, U+2003 ...)
+            line = line.decode("utf-8").strip(" \t\r\n")
         except UnicodeDecodeError:
             raise WebSocketException("Invalid header: not valid UTF-8")
         if not line:
@@ -380,10 +381,15 @@ def read_headers(sock: socket.socket) -> tuple:
             if len(kv) != 2:
                 raise WebSocketException("Invalid header")
             key, value = kv
+            if not key.isascii():
+                # a field name is ASCII; lower() must not fold anything else into one
+                raise WebSocketException("Invalid header")
             if key.lower() == "set-cookie" and headers.get("set-cookie"):
-                headers["set-cookie"] = headers.get("set-cookie") + "; " + value.strip()
+                headers["set-cookie"] = (
+                    headers.get("set-cookie") + "; " + value.strip(" \t")
+                )
             else:
-                headers[key.lower()] = value.strip()
+                headers[key.lower()] = value.strip(" \t")
 
     trace("-----------------------")
 
